@@ -8,6 +8,22 @@
 
 #include <stdint.h>
 
+/* ---- verification hooks (guarded) ---- */
+#ifdef PMODELS_ARGOBOTS_VERIF
+#define ABTD_VERIF_OP_LOAD 1
+#define ABTD_VERIF_OP_STORE 2
+#define ABTD_VERIF_OP_RMW 3
+#define ABTD_VERIF_OP_CAS 4
+extern void (*ABTD_verif_hook)(const void *addr, int op);
+#define ABTD_VERIF_ATOMIC(p, op)                                               \
+    do {                                                                       \
+        if (__builtin_expect(!!ABTD_verif_hook, 0))                            \
+            ABTD_verif_hook((const void *)(p), (op));                          \
+    } while (0)
+#else
+#define ABTD_VERIF_ATOMIC(p, op) ((void)0)
+#endif
+
 typedef struct ABTD_atomic_bool {
     uint8_t val;
 } ABTD_atomic_bool;
@@ -76,6 +92,7 @@ typedef struct ABTD_atomic_ptr {
 static inline int ABTDI_atomic_val_cas_int(ABTD_atomic_int *ptr, int oldv,
                                            int newv, int weak)
 {
+    ABTD_VERIF_ATOMIC(ptr, ABTD_VERIF_OP_CAS);
 #ifdef ABT_CONFIG_HAVE_ATOMIC_BUILTIN
     int tmp_oldv = oldv;
     int ret = __atomic_compare_exchange_n(&ptr->val, &oldv, newv, weak,
@@ -90,6 +107,7 @@ static inline size_t ABTDI_atomic_val_cas_size(ABTD_atomic_size *ptr,
                                                size_t oldv, size_t newv,
                                                int weak)
 {
+    ABTD_VERIF_ATOMIC(ptr, ABTD_VERIF_OP_CAS);
 #ifdef ABT_CONFIG_HAVE_ATOMIC_BUILTIN
     size_t tmp_oldv = oldv;
     int ret = __atomic_compare_exchange_n(&ptr->val, &oldv, newv, weak,
@@ -104,6 +122,7 @@ static inline int32_t ABTDI_atomic_val_cas_int32(ABTD_atomic_int32 *ptr,
                                                  int32_t oldv, int32_t newv,
                                                  int weak)
 {
+    ABTD_VERIF_ATOMIC(ptr, ABTD_VERIF_OP_CAS);
 #ifdef ABT_CONFIG_HAVE_ATOMIC_BUILTIN
     int32_t tmp_oldv = oldv;
     int ret = __atomic_compare_exchange_n(&ptr->val, &oldv, newv, weak,
@@ -118,6 +137,7 @@ static inline uint32_t ABTDI_atomic_val_cas_uint32(ABTD_atomic_uint32 *ptr,
                                                    uint32_t oldv, uint32_t newv,
                                                    int weak)
 {
+    ABTD_VERIF_ATOMIC(ptr, ABTD_VERIF_OP_CAS);
 #ifdef ABT_CONFIG_HAVE_ATOMIC_BUILTIN
     uint32_t tmp_oldv = oldv;
     int ret = __atomic_compare_exchange_n(&ptr->val, &oldv, newv, weak,
@@ -132,6 +152,7 @@ static inline int64_t ABTDI_atomic_val_cas_int64(ABTD_atomic_int64 *ptr,
                                                  int64_t oldv, int64_t newv,
                                                  int weak)
 {
+    ABTD_VERIF_ATOMIC(ptr, ABTD_VERIF_OP_CAS);
 #ifdef ABT_CONFIG_HAVE_ATOMIC_BUILTIN
     int64_t tmp_oldv = oldv;
     int ret = __atomic_compare_exchange_n(&ptr->val, &oldv, newv, weak,
@@ -146,6 +167,7 @@ static inline uint64_t ABTDI_atomic_val_cas_uint64(ABTD_atomic_uint64 *ptr,
                                                    uint64_t oldv, uint64_t newv,
                                                    int weak)
 {
+    ABTD_VERIF_ATOMIC(ptr, ABTD_VERIF_OP_CAS);
 #ifdef ABT_CONFIG_HAVE_ATOMIC_BUILTIN
     uint64_t tmp_oldv = oldv;
     int ret = __atomic_compare_exchange_n(&ptr->val, &oldv, newv, weak,
@@ -159,6 +181,7 @@ static inline uint64_t ABTDI_atomic_val_cas_uint64(ABTD_atomic_uint64 *ptr,
 static inline void *ABTDI_atomic_val_cas_ptr(ABTD_atomic_ptr *ptr, void *oldv,
                                              void *newv, int weak)
 {
+    ABTD_VERIF_ATOMIC(ptr, ABTD_VERIF_OP_CAS);
 #ifdef ABT_CONFIG_HAVE_ATOMIC_BUILTIN
     void *tmp_oldv = oldv;
     int ret = __atomic_compare_exchange_n(&ptr->val, &oldv, newv, weak,
@@ -172,6 +195,7 @@ static inline void *ABTDI_atomic_val_cas_ptr(ABTD_atomic_ptr *ptr, void *oldv,
 static inline int ABTDI_atomic_bool_cas_int(ABTD_atomic_int *ptr, int oldv,
                                             int newv, int weak)
 {
+    ABTD_VERIF_ATOMIC(ptr, ABTD_VERIF_OP_CAS);
 #ifdef ABT_CONFIG_HAVE_ATOMIC_BUILTIN
     return __atomic_compare_exchange_n(&ptr->val, &oldv, newv, weak,
                                        __ATOMIC_ACQ_REL, __ATOMIC_ACQUIRE);
@@ -183,6 +207,7 @@ static inline int ABTDI_atomic_bool_cas_int(ABTD_atomic_int *ptr, int oldv,
 static inline int ABTDI_atomic_bool_cas_size(ABTD_atomic_size *ptr, size_t oldv,
                                              size_t newv, int weak)
 {
+    ABTD_VERIF_ATOMIC(ptr, ABTD_VERIF_OP_CAS);
 #ifdef ABT_CONFIG_HAVE_ATOMIC_BUILTIN
     return __atomic_compare_exchange_n(&ptr->val, &oldv, newv, weak,
                                        __ATOMIC_ACQ_REL, __ATOMIC_ACQUIRE);
@@ -195,6 +220,7 @@ static inline int ABTDI_atomic_bool_cas_int32(ABTD_atomic_int32 *ptr,
                                               int32_t oldv, int32_t newv,
                                               int weak)
 {
+    ABTD_VERIF_ATOMIC(ptr, ABTD_VERIF_OP_CAS);
 #ifdef ABT_CONFIG_HAVE_ATOMIC_BUILTIN
     return __atomic_compare_exchange_n(&ptr->val, &oldv, newv, weak,
                                        __ATOMIC_ACQ_REL, __ATOMIC_ACQUIRE);
@@ -207,6 +233,7 @@ static inline int ABTDI_atomic_bool_cas_uint32(ABTD_atomic_uint32 *ptr,
                                                uint32_t oldv, uint32_t newv,
                                                int weak)
 {
+    ABTD_VERIF_ATOMIC(ptr, ABTD_VERIF_OP_CAS);
 #ifdef ABT_CONFIG_HAVE_ATOMIC_BUILTIN
     return __atomic_compare_exchange_n(&ptr->val, &oldv, newv, weak,
                                        __ATOMIC_ACQ_REL, __ATOMIC_ACQUIRE);
@@ -219,6 +246,7 @@ static inline int ABTDI_atomic_bool_cas_int64(ABTD_atomic_int64 *ptr,
                                               int64_t oldv, int64_t newv,
                                               int weak)
 {
+    ABTD_VERIF_ATOMIC(ptr, ABTD_VERIF_OP_CAS);
 #ifdef ABT_CONFIG_HAVE_ATOMIC_BUILTIN
     return __atomic_compare_exchange_n(&ptr->val, &oldv, newv, weak,
                                        __ATOMIC_ACQ_REL, __ATOMIC_ACQUIRE);
@@ -231,6 +259,7 @@ static inline int ABTDI_atomic_bool_cas_uint64(ABTD_atomic_uint64 *ptr,
                                                uint64_t oldv, uint64_t newv,
                                                int weak)
 {
+    ABTD_VERIF_ATOMIC(ptr, ABTD_VERIF_OP_CAS);
 #ifdef ABT_CONFIG_HAVE_ATOMIC_BUILTIN
     return __atomic_compare_exchange_n(&ptr->val, &oldv, newv, weak,
                                        __ATOMIC_ACQ_REL, __ATOMIC_ACQUIRE);
@@ -242,6 +271,7 @@ static inline int ABTDI_atomic_bool_cas_uint64(ABTD_atomic_uint64 *ptr,
 static inline int ABTDI_atomic_bool_cas_ptr(ABTD_atomic_ptr *ptr, void *oldv,
                                             void *newv, int weak)
 {
+    ABTD_VERIF_ATOMIC(ptr, ABTD_VERIF_OP_CAS);
 #ifdef ABT_CONFIG_HAVE_ATOMIC_BUILTIN
     return __atomic_compare_exchange_n(&ptr->val, &oldv, newv, weak,
                                        __ATOMIC_ACQ_REL, __ATOMIC_ACQUIRE);
@@ -428,6 +458,7 @@ static inline int ABTD_atomic_bool_cas_strong_ptr(ABTD_atomic_ptr *ptr,
 
 static inline int ABTD_atomic_fetch_add_int(ABTD_atomic_int *ptr, int v)
 {
+    ABTD_VERIF_ATOMIC(ptr, ABTD_VERIF_OP_RMW);
 #ifdef ABT_CONFIG_HAVE_ATOMIC_BUILTIN
     return __atomic_fetch_add(&ptr->val, v, __ATOMIC_ACQ_REL);
 #else
@@ -437,6 +468,7 @@ static inline int ABTD_atomic_fetch_add_int(ABTD_atomic_int *ptr, int v)
 
 static inline size_t ABTD_atomic_fetch_add_size(ABTD_atomic_size *ptr, size_t v)
 {
+    ABTD_VERIF_ATOMIC(ptr, ABTD_VERIF_OP_RMW);
 #ifdef ABT_CONFIG_HAVE_ATOMIC_BUILTIN
     return __atomic_fetch_add(&ptr->val, v, __ATOMIC_ACQ_REL);
 #else
@@ -447,6 +479,7 @@ static inline size_t ABTD_atomic_fetch_add_size(ABTD_atomic_size *ptr, size_t v)
 static inline int32_t ABTD_atomic_fetch_add_int32(ABTD_atomic_int32 *ptr,
                                                   int32_t v)
 {
+    ABTD_VERIF_ATOMIC(ptr, ABTD_VERIF_OP_RMW);
 #ifdef ABT_CONFIG_HAVE_ATOMIC_BUILTIN
     return __atomic_fetch_add(&ptr->val, v, __ATOMIC_ACQ_REL);
 #else
@@ -457,6 +490,7 @@ static inline int32_t ABTD_atomic_fetch_add_int32(ABTD_atomic_int32 *ptr,
 static inline uint32_t ABTD_atomic_fetch_add_uint32(ABTD_atomic_uint32 *ptr,
                                                     uint32_t v)
 {
+    ABTD_VERIF_ATOMIC(ptr, ABTD_VERIF_OP_RMW);
 #ifdef ABT_CONFIG_HAVE_ATOMIC_BUILTIN
     return __atomic_fetch_add(&ptr->val, v, __ATOMIC_ACQ_REL);
 #else
@@ -467,6 +501,7 @@ static inline uint32_t ABTD_atomic_fetch_add_uint32(ABTD_atomic_uint32 *ptr,
 static inline int64_t ABTD_atomic_fetch_add_int64(ABTD_atomic_int64 *ptr,
                                                   int64_t v)
 {
+    ABTD_VERIF_ATOMIC(ptr, ABTD_VERIF_OP_RMW);
 #ifdef ABT_CONFIG_HAVE_ATOMIC_BUILTIN
     return __atomic_fetch_add(&ptr->val, v, __ATOMIC_ACQ_REL);
 #else
@@ -477,6 +512,7 @@ static inline int64_t ABTD_atomic_fetch_add_int64(ABTD_atomic_int64 *ptr,
 static inline uint64_t ABTD_atomic_fetch_add_uint64(ABTD_atomic_uint64 *ptr,
                                                     uint64_t v)
 {
+    ABTD_VERIF_ATOMIC(ptr, ABTD_VERIF_OP_RMW);
 #ifdef ABT_CONFIG_HAVE_ATOMIC_BUILTIN
     return __atomic_fetch_add(&ptr->val, v, __ATOMIC_ACQ_REL);
 #else
@@ -486,6 +522,7 @@ static inline uint64_t ABTD_atomic_fetch_add_uint64(ABTD_atomic_uint64 *ptr,
 
 static inline int ABTD_atomic_fetch_sub_int(ABTD_atomic_int *ptr, int v)
 {
+    ABTD_VERIF_ATOMIC(ptr, ABTD_VERIF_OP_RMW);
 #ifdef ABT_CONFIG_HAVE_ATOMIC_BUILTIN
     return __atomic_fetch_sub(&ptr->val, v, __ATOMIC_ACQ_REL);
 #else
@@ -495,6 +532,7 @@ static inline int ABTD_atomic_fetch_sub_int(ABTD_atomic_int *ptr, int v)
 
 static inline size_t ABTD_atomic_fetch_sub_size(ABTD_atomic_size *ptr, size_t v)
 {
+    ABTD_VERIF_ATOMIC(ptr, ABTD_VERIF_OP_RMW);
 #ifdef ABT_CONFIG_HAVE_ATOMIC_BUILTIN
     return __atomic_fetch_sub(&ptr->val, v, __ATOMIC_ACQ_REL);
 #else
@@ -505,6 +543,7 @@ static inline size_t ABTD_atomic_fetch_sub_size(ABTD_atomic_size *ptr, size_t v)
 static inline int32_t ABTD_atomic_fetch_sub_int32(ABTD_atomic_int32 *ptr,
                                                   int32_t v)
 {
+    ABTD_VERIF_ATOMIC(ptr, ABTD_VERIF_OP_RMW);
 #ifdef ABT_CONFIG_HAVE_ATOMIC_BUILTIN
     return __atomic_fetch_sub(&ptr->val, v, __ATOMIC_ACQ_REL);
 #else
@@ -515,6 +554,7 @@ static inline int32_t ABTD_atomic_fetch_sub_int32(ABTD_atomic_int32 *ptr,
 static inline uint32_t ABTD_atomic_fetch_sub_uint32(ABTD_atomic_uint32 *ptr,
                                                     uint32_t v)
 {
+    ABTD_VERIF_ATOMIC(ptr, ABTD_VERIF_OP_RMW);
 #ifdef ABT_CONFIG_HAVE_ATOMIC_BUILTIN
     return __atomic_fetch_sub(&ptr->val, v, __ATOMIC_ACQ_REL);
 #else
@@ -525,6 +565,7 @@ static inline uint32_t ABTD_atomic_fetch_sub_uint32(ABTD_atomic_uint32 *ptr,
 static inline int64_t ABTD_atomic_fetch_sub_int64(ABTD_atomic_int64 *ptr,
                                                   int64_t v)
 {
+    ABTD_VERIF_ATOMIC(ptr, ABTD_VERIF_OP_RMW);
 #ifdef ABT_CONFIG_HAVE_ATOMIC_BUILTIN
     return __atomic_fetch_sub(&ptr->val, v, __ATOMIC_ACQ_REL);
 #else
@@ -535,6 +576,7 @@ static inline int64_t ABTD_atomic_fetch_sub_int64(ABTD_atomic_int64 *ptr,
 static inline uint64_t ABTD_atomic_fetch_sub_uint64(ABTD_atomic_uint64 *ptr,
                                                     uint64_t v)
 {
+    ABTD_VERIF_ATOMIC(ptr, ABTD_VERIF_OP_RMW);
 #ifdef ABT_CONFIG_HAVE_ATOMIC_BUILTIN
     return __atomic_fetch_sub(&ptr->val, v, __ATOMIC_ACQ_REL);
 #else
@@ -544,6 +586,7 @@ static inline uint64_t ABTD_atomic_fetch_sub_uint64(ABTD_atomic_uint64 *ptr,
 
 static inline int ABTD_atomic_fetch_and_int(ABTD_atomic_int *ptr, int v)
 {
+    ABTD_VERIF_ATOMIC(ptr, ABTD_VERIF_OP_RMW);
 #ifdef ABT_CONFIG_HAVE_ATOMIC_BUILTIN
     return __atomic_fetch_and(&ptr->val, v, __ATOMIC_ACQ_REL);
 #else
@@ -553,6 +596,7 @@ static inline int ABTD_atomic_fetch_and_int(ABTD_atomic_int *ptr, int v)
 
 static inline size_t ABTD_atomic_fetch_and_size(ABTD_atomic_size *ptr, size_t v)
 {
+    ABTD_VERIF_ATOMIC(ptr, ABTD_VERIF_OP_RMW);
 #ifdef ABT_CONFIG_HAVE_ATOMIC_BUILTIN
     return __atomic_fetch_and(&ptr->val, v, __ATOMIC_ACQ_REL);
 #else
@@ -563,6 +607,7 @@ static inline size_t ABTD_atomic_fetch_and_size(ABTD_atomic_size *ptr, size_t v)
 static inline int32_t ABTD_atomic_fetch_and_int32(ABTD_atomic_int32 *ptr,
                                                   int32_t v)
 {
+    ABTD_VERIF_ATOMIC(ptr, ABTD_VERIF_OP_RMW);
 #ifdef ABT_CONFIG_HAVE_ATOMIC_BUILTIN
     return __atomic_fetch_and(&ptr->val, v, __ATOMIC_ACQ_REL);
 #else
@@ -573,6 +618,7 @@ static inline int32_t ABTD_atomic_fetch_and_int32(ABTD_atomic_int32 *ptr,
 static inline uint32_t ABTD_atomic_fetch_and_uint32(ABTD_atomic_uint32 *ptr,
                                                     uint32_t v)
 {
+    ABTD_VERIF_ATOMIC(ptr, ABTD_VERIF_OP_RMW);
 #ifdef ABT_CONFIG_HAVE_ATOMIC_BUILTIN
     return __atomic_fetch_and(&ptr->val, v, __ATOMIC_ACQ_REL);
 #else
@@ -583,6 +629,7 @@ static inline uint32_t ABTD_atomic_fetch_and_uint32(ABTD_atomic_uint32 *ptr,
 static inline int64_t ABTD_atomic_fetch_and_int64(ABTD_atomic_int64 *ptr,
                                                   int64_t v)
 {
+    ABTD_VERIF_ATOMIC(ptr, ABTD_VERIF_OP_RMW);
 #ifdef ABT_CONFIG_HAVE_ATOMIC_BUILTIN
     return __atomic_fetch_and(&ptr->val, v, __ATOMIC_ACQ_REL);
 #else
@@ -593,6 +640,7 @@ static inline int64_t ABTD_atomic_fetch_and_int64(ABTD_atomic_int64 *ptr,
 static inline uint64_t ABTD_atomic_fetch_and_uint64(ABTD_atomic_uint64 *ptr,
                                                     uint64_t v)
 {
+    ABTD_VERIF_ATOMIC(ptr, ABTD_VERIF_OP_RMW);
 #ifdef ABT_CONFIG_HAVE_ATOMIC_BUILTIN
     return __atomic_fetch_and(&ptr->val, v, __ATOMIC_ACQ_REL);
 #else
@@ -602,6 +650,7 @@ static inline uint64_t ABTD_atomic_fetch_and_uint64(ABTD_atomic_uint64 *ptr,
 
 static inline int ABTD_atomic_fetch_or_int(ABTD_atomic_int *ptr, int v)
 {
+    ABTD_VERIF_ATOMIC(ptr, ABTD_VERIF_OP_RMW);
 #ifdef ABT_CONFIG_HAVE_ATOMIC_BUILTIN
     return __atomic_fetch_or(&ptr->val, v, __ATOMIC_ACQ_REL);
 #else
@@ -611,6 +660,7 @@ static inline int ABTD_atomic_fetch_or_int(ABTD_atomic_int *ptr, int v)
 
 static inline size_t ABTD_atomic_fetch_or_size(ABTD_atomic_size *ptr, size_t v)
 {
+    ABTD_VERIF_ATOMIC(ptr, ABTD_VERIF_OP_RMW);
 #ifdef ABT_CONFIG_HAVE_ATOMIC_BUILTIN
     return __atomic_fetch_or(&ptr->val, v, __ATOMIC_ACQ_REL);
 #else
@@ -621,6 +671,7 @@ static inline size_t ABTD_atomic_fetch_or_size(ABTD_atomic_size *ptr, size_t v)
 static inline int32_t ABTD_atomic_fetch_or_int32(ABTD_atomic_int32 *ptr,
                                                  int32_t v)
 {
+    ABTD_VERIF_ATOMIC(ptr, ABTD_VERIF_OP_RMW);
 #ifdef ABT_CONFIG_HAVE_ATOMIC_BUILTIN
     return __atomic_fetch_or(&ptr->val, v, __ATOMIC_ACQ_REL);
 #else
@@ -631,6 +682,7 @@ static inline int32_t ABTD_atomic_fetch_or_int32(ABTD_atomic_int32 *ptr,
 static inline uint32_t ABTD_atomic_fetch_or_uint32(ABTD_atomic_uint32 *ptr,
                                                    uint32_t v)
 {
+    ABTD_VERIF_ATOMIC(ptr, ABTD_VERIF_OP_RMW);
 #ifdef ABT_CONFIG_HAVE_ATOMIC_BUILTIN
     return __atomic_fetch_or(&ptr->val, v, __ATOMIC_ACQ_REL);
 #else
@@ -641,6 +693,7 @@ static inline uint32_t ABTD_atomic_fetch_or_uint32(ABTD_atomic_uint32 *ptr,
 static inline int64_t ABTD_atomic_fetch_or_int64(ABTD_atomic_int64 *ptr,
                                                  int64_t v)
 {
+    ABTD_VERIF_ATOMIC(ptr, ABTD_VERIF_OP_RMW);
 #ifdef ABT_CONFIG_HAVE_ATOMIC_BUILTIN
     return __atomic_fetch_or(&ptr->val, v, __ATOMIC_ACQ_REL);
 #else
@@ -651,6 +704,7 @@ static inline int64_t ABTD_atomic_fetch_or_int64(ABTD_atomic_int64 *ptr,
 static inline uint64_t ABTD_atomic_fetch_or_uint64(ABTD_atomic_uint64 *ptr,
                                                    uint64_t v)
 {
+    ABTD_VERIF_ATOMIC(ptr, ABTD_VERIF_OP_RMW);
 #ifdef ABT_CONFIG_HAVE_ATOMIC_BUILTIN
     return __atomic_fetch_or(&ptr->val, v, __ATOMIC_ACQ_REL);
 #else
@@ -660,6 +714,7 @@ static inline uint64_t ABTD_atomic_fetch_or_uint64(ABTD_atomic_uint64 *ptr,
 
 static inline int ABTD_atomic_fetch_xor_int(ABTD_atomic_int *ptr, int v)
 {
+    ABTD_VERIF_ATOMIC(ptr, ABTD_VERIF_OP_RMW);
 #ifdef ABT_CONFIG_HAVE_ATOMIC_BUILTIN
     return __atomic_fetch_xor(&ptr->val, v, __ATOMIC_ACQ_REL);
 #else
@@ -669,6 +724,7 @@ static inline int ABTD_atomic_fetch_xor_int(ABTD_atomic_int *ptr, int v)
 
 static inline size_t ABTD_atomic_fetch_xor_size(ABTD_atomic_size *ptr, size_t v)
 {
+    ABTD_VERIF_ATOMIC(ptr, ABTD_VERIF_OP_RMW);
 #ifdef ABT_CONFIG_HAVE_ATOMIC_BUILTIN
     return __atomic_fetch_xor(&ptr->val, v, __ATOMIC_ACQ_REL);
 #else
@@ -679,6 +735,7 @@ static inline size_t ABTD_atomic_fetch_xor_size(ABTD_atomic_size *ptr, size_t v)
 static inline int32_t ABTD_atomic_fetch_xor_int32(ABTD_atomic_int32 *ptr,
                                                   int32_t v)
 {
+    ABTD_VERIF_ATOMIC(ptr, ABTD_VERIF_OP_RMW);
 #ifdef ABT_CONFIG_HAVE_ATOMIC_BUILTIN
     return __atomic_fetch_xor(&ptr->val, v, __ATOMIC_ACQ_REL);
 #else
@@ -689,6 +746,7 @@ static inline int32_t ABTD_atomic_fetch_xor_int32(ABTD_atomic_int32 *ptr,
 static inline uint32_t ABTD_atomic_fetch_xor_uint32(ABTD_atomic_uint32 *ptr,
                                                     uint32_t v)
 {
+    ABTD_VERIF_ATOMIC(ptr, ABTD_VERIF_OP_RMW);
 #ifdef ABT_CONFIG_HAVE_ATOMIC_BUILTIN
     return __atomic_fetch_xor(&ptr->val, v, __ATOMIC_ACQ_REL);
 #else
@@ -699,6 +757,7 @@ static inline uint32_t ABTD_atomic_fetch_xor_uint32(ABTD_atomic_uint32 *ptr,
 static inline int64_t ABTD_atomic_fetch_xor_int64(ABTD_atomic_int64 *ptr,
                                                   int64_t v)
 {
+    ABTD_VERIF_ATOMIC(ptr, ABTD_VERIF_OP_RMW);
 #ifdef ABT_CONFIG_HAVE_ATOMIC_BUILTIN
     return __atomic_fetch_xor(&ptr->val, v, __ATOMIC_ACQ_REL);
 #else
@@ -709,6 +768,7 @@ static inline int64_t ABTD_atomic_fetch_xor_int64(ABTD_atomic_int64 *ptr,
 static inline uint64_t ABTD_atomic_fetch_xor_uint64(ABTD_atomic_uint64 *ptr,
                                                     uint64_t v)
 {
+    ABTD_VERIF_ATOMIC(ptr, ABTD_VERIF_OP_RMW);
 #ifdef ABT_CONFIG_HAVE_ATOMIC_BUILTIN
     return __atomic_fetch_xor(&ptr->val, v, __ATOMIC_ACQ_REL);
 #else
@@ -718,6 +778,7 @@ static inline uint64_t ABTD_atomic_fetch_xor_uint64(ABTD_atomic_uint64 *ptr,
 
 static inline uint16_t ABTD_atomic_test_and_set_bool(ABTD_atomic_bool *ptr)
 {
+    ABTD_VERIF_ATOMIC(ptr, ABTD_VERIF_OP_RMW);
     /* return 0 if this test_and_set succeeds to set a value. */
 #ifdef ABT_CONFIG_HAVE_ATOMIC_BUILTIN
     return __atomic_test_and_set(&ptr->val, __ATOMIC_ACQUIRE);
@@ -728,6 +789,7 @@ static inline uint16_t ABTD_atomic_test_and_set_bool(ABTD_atomic_bool *ptr)
 
 static inline void ABTD_atomic_relaxed_clear_bool(ABTD_atomic_bool *ptr)
 {
+    ABTD_VERIF_ATOMIC(ptr, ABTD_VERIF_OP_STORE);
 #ifdef ABT_CONFIG_HAVE_ATOMIC_BUILTIN
     __atomic_clear(&ptr->val, __ATOMIC_RELAXED);
 #else
@@ -737,6 +799,7 @@ static inline void ABTD_atomic_relaxed_clear_bool(ABTD_atomic_bool *ptr)
 
 static inline void ABTD_atomic_release_clear_bool(ABTD_atomic_bool *ptr)
 {
+    ABTD_VERIF_ATOMIC(ptr, ABTD_VERIF_OP_STORE);
 #ifdef ABT_CONFIG_HAVE_ATOMIC_BUILTIN
     __atomic_clear(&ptr->val, __ATOMIC_RELEASE);
 #else
@@ -747,6 +810,7 @@ static inline void ABTD_atomic_release_clear_bool(ABTD_atomic_bool *ptr)
 static inline ABT_bool
 ABTD_atomic_relaxed_load_bool(const ABTD_atomic_bool *ptr)
 {
+    ABTD_VERIF_ATOMIC(ptr, ABTD_VERIF_OP_LOAD);
 #ifdef ABT_CONFIG_HAVE_ATOMIC_BUILTIN
 #ifndef __SUNPRO_C
     return __atomic_load_n(&ptr->val, __ATOMIC_RELAXED) ? ABT_TRUE : ABT_FALSE;
@@ -762,6 +826,7 @@ ABTD_atomic_relaxed_load_bool(const ABTD_atomic_bool *ptr)
 
 static inline int ABTD_atomic_relaxed_load_int(const ABTD_atomic_int *ptr)
 {
+    ABTD_VERIF_ATOMIC(ptr, ABTD_VERIF_OP_LOAD);
 #ifdef ABT_CONFIG_HAVE_ATOMIC_BUILTIN
 #ifndef __SUNPRO_C
     return __atomic_load_n(&ptr->val, __ATOMIC_RELAXED);
@@ -775,6 +840,7 @@ static inline int ABTD_atomic_relaxed_load_int(const ABTD_atomic_int *ptr)
 
 static inline size_t ABTD_atomic_relaxed_load_size(const ABTD_atomic_size *ptr)
 {
+    ABTD_VERIF_ATOMIC(ptr, ABTD_VERIF_OP_LOAD);
 #ifdef ABT_CONFIG_HAVE_ATOMIC_BUILTIN
 #ifndef __SUNPRO_C
     return __atomic_load_n(&ptr->val, __ATOMIC_RELAXED);
@@ -789,6 +855,7 @@ static inline size_t ABTD_atomic_relaxed_load_size(const ABTD_atomic_size *ptr)
 static inline int32_t
 ABTD_atomic_relaxed_load_int32(const ABTD_atomic_int32 *ptr)
 {
+    ABTD_VERIF_ATOMIC(ptr, ABTD_VERIF_OP_LOAD);
 #ifdef ABT_CONFIG_HAVE_ATOMIC_BUILTIN
 #ifndef __SUNPRO_C
     return __atomic_load_n(&ptr->val, __ATOMIC_RELAXED);
@@ -803,6 +870,7 @@ ABTD_atomic_relaxed_load_int32(const ABTD_atomic_int32 *ptr)
 static inline uint32_t
 ABTD_atomic_relaxed_load_uint32(const ABTD_atomic_uint32 *ptr)
 {
+    ABTD_VERIF_ATOMIC(ptr, ABTD_VERIF_OP_LOAD);
 #ifdef ABT_CONFIG_HAVE_ATOMIC_BUILTIN
 #ifndef __SUNPRO_C
     return __atomic_load_n(&ptr->val, __ATOMIC_RELAXED);
@@ -817,6 +885,7 @@ ABTD_atomic_relaxed_load_uint32(const ABTD_atomic_uint32 *ptr)
 static inline int64_t
 ABTD_atomic_relaxed_load_int64(const ABTD_atomic_int64 *ptr)
 {
+    ABTD_VERIF_ATOMIC(ptr, ABTD_VERIF_OP_LOAD);
 #ifdef ABT_CONFIG_HAVE_ATOMIC_BUILTIN
 #ifndef __SUNPRO_C
     return __atomic_load_n(&ptr->val, __ATOMIC_RELAXED);
@@ -831,6 +900,7 @@ ABTD_atomic_relaxed_load_int64(const ABTD_atomic_int64 *ptr)
 static inline uint64_t
 ABTD_atomic_relaxed_load_uint64(const ABTD_atomic_uint64 *ptr)
 {
+    ABTD_VERIF_ATOMIC(ptr, ABTD_VERIF_OP_LOAD);
     /* return 0 if this test_and_set succeeds to set a value. */
 #ifdef ABT_CONFIG_HAVE_ATOMIC_BUILTIN
 #ifndef __SUNPRO_C
@@ -845,6 +915,7 @@ ABTD_atomic_relaxed_load_uint64(const ABTD_atomic_uint64 *ptr)
 
 static inline void *ABTD_atomic_relaxed_load_ptr(const ABTD_atomic_ptr *ptr)
 {
+    ABTD_VERIF_ATOMIC(ptr, ABTD_VERIF_OP_LOAD);
     /* return 0 if this test_and_set succeeds to set a value. */
 #ifdef ABT_CONFIG_HAVE_ATOMIC_BUILTIN
 #ifndef __SUNPRO_C
@@ -860,6 +931,7 @@ static inline void *ABTD_atomic_relaxed_load_ptr(const ABTD_atomic_ptr *ptr)
 static inline ABT_bool
 ABTD_atomic_acquire_load_bool(const ABTD_atomic_bool *ptr)
 {
+    ABTD_VERIF_ATOMIC(ptr, ABTD_VERIF_OP_LOAD);
 #ifdef ABT_CONFIG_HAVE_ATOMIC_BUILTIN
 #ifndef __SUNPRO_C
     return __atomic_load_n(&ptr->val, __ATOMIC_ACQUIRE) ? ABT_TRUE : ABT_FALSE;
@@ -877,6 +949,7 @@ ABTD_atomic_acquire_load_bool(const ABTD_atomic_bool *ptr)
 
 static inline int ABTD_atomic_acquire_load_int(const ABTD_atomic_int *ptr)
 {
+    ABTD_VERIF_ATOMIC(ptr, ABTD_VERIF_OP_LOAD);
 #ifdef ABT_CONFIG_HAVE_ATOMIC_BUILTIN
 #ifndef __SUNPRO_C
     return __atomic_load_n(&ptr->val, __ATOMIC_ACQUIRE);
@@ -893,6 +966,7 @@ static inline int ABTD_atomic_acquire_load_int(const ABTD_atomic_int *ptr)
 
 static inline size_t ABTD_atomic_acquire_load_size(const ABTD_atomic_size *ptr)
 {
+    ABTD_VERIF_ATOMIC(ptr, ABTD_VERIF_OP_LOAD);
 #ifdef ABT_CONFIG_HAVE_ATOMIC_BUILTIN
 #ifndef __SUNPRO_C
     return __atomic_load_n(&ptr->val, __ATOMIC_ACQUIRE);
@@ -910,6 +984,7 @@ static inline size_t ABTD_atomic_acquire_load_size(const ABTD_atomic_size *ptr)
 static inline int32_t
 ABTD_atomic_acquire_load_int32(const ABTD_atomic_int32 *ptr)
 {
+    ABTD_VERIF_ATOMIC(ptr, ABTD_VERIF_OP_LOAD);
 #ifdef ABT_CONFIG_HAVE_ATOMIC_BUILTIN
 #ifndef __SUNPRO_C
     return __atomic_load_n(&ptr->val, __ATOMIC_ACQUIRE);
@@ -927,6 +1002,7 @@ ABTD_atomic_acquire_load_int32(const ABTD_atomic_int32 *ptr)
 static inline uint32_t
 ABTD_atomic_acquire_load_uint32(const ABTD_atomic_uint32 *ptr)
 {
+    ABTD_VERIF_ATOMIC(ptr, ABTD_VERIF_OP_LOAD);
 #ifdef ABT_CONFIG_HAVE_ATOMIC_BUILTIN
 #ifndef __SUNPRO_C
     return __atomic_load_n(&ptr->val, __ATOMIC_ACQUIRE);
@@ -944,6 +1020,7 @@ ABTD_atomic_acquire_load_uint32(const ABTD_atomic_uint32 *ptr)
 static inline int64_t
 ABTD_atomic_acquire_load_int64(const ABTD_atomic_int64 *ptr)
 {
+    ABTD_VERIF_ATOMIC(ptr, ABTD_VERIF_OP_LOAD);
 #ifdef ABT_CONFIG_HAVE_ATOMIC_BUILTIN
 #ifndef __SUNPRO_C
     return __atomic_load_n(&ptr->val, __ATOMIC_ACQUIRE);
@@ -961,6 +1038,7 @@ ABTD_atomic_acquire_load_int64(const ABTD_atomic_int64 *ptr)
 static inline uint64_t
 ABTD_atomic_acquire_load_uint64(const ABTD_atomic_uint64 *ptr)
 {
+    ABTD_VERIF_ATOMIC(ptr, ABTD_VERIF_OP_LOAD);
     /* return 0 if this test_and_set succeeds to set a value. */
 #ifdef ABT_CONFIG_HAVE_ATOMIC_BUILTIN
 #ifndef __SUNPRO_C
@@ -978,6 +1056,7 @@ ABTD_atomic_acquire_load_uint64(const ABTD_atomic_uint64 *ptr)
 
 static inline void *ABTD_atomic_acquire_load_ptr(const ABTD_atomic_ptr *ptr)
 {
+    ABTD_VERIF_ATOMIC(ptr, ABTD_VERIF_OP_LOAD);
     /* return 0 if this test_and_set succeeds to set a value. */
 #ifdef ABT_CONFIG_HAVE_ATOMIC_BUILTIN
 #ifndef __SUNPRO_C
@@ -995,6 +1074,7 @@ static inline void *ABTD_atomic_acquire_load_ptr(const ABTD_atomic_ptr *ptr)
 
 static inline void ABTD_atomic_relaxed_store_int(ABTD_atomic_int *ptr, int val)
 {
+    ABTD_VERIF_ATOMIC(ptr, ABTD_VERIF_OP_STORE);
 #ifdef ABT_CONFIG_HAVE_ATOMIC_BUILTIN
     __atomic_store_n(&ptr->val, val, __ATOMIC_RELAXED);
 #else
@@ -1005,6 +1085,7 @@ static inline void ABTD_atomic_relaxed_store_int(ABTD_atomic_int *ptr, int val)
 static inline void ABTD_atomic_relaxed_store_size(ABTD_atomic_size *ptr,
                                                   size_t val)
 {
+    ABTD_VERIF_ATOMIC(ptr, ABTD_VERIF_OP_STORE);
 #ifdef ABT_CONFIG_HAVE_ATOMIC_BUILTIN
     __atomic_store_n(&ptr->val, val, __ATOMIC_RELAXED);
 #else
@@ -1015,6 +1096,7 @@ static inline void ABTD_atomic_relaxed_store_size(ABTD_atomic_size *ptr,
 static inline void ABTD_atomic_relaxed_store_int32(ABTD_atomic_int32 *ptr,
                                                    int32_t val)
 {
+    ABTD_VERIF_ATOMIC(ptr, ABTD_VERIF_OP_STORE);
 #ifdef ABT_CONFIG_HAVE_ATOMIC_BUILTIN
     __atomic_store_n(&ptr->val, val, __ATOMIC_RELAXED);
 #else
@@ -1025,6 +1107,7 @@ static inline void ABTD_atomic_relaxed_store_int32(ABTD_atomic_int32 *ptr,
 static inline void ABTD_atomic_relaxed_store_uint32(ABTD_atomic_uint32 *ptr,
                                                     uint32_t val)
 {
+    ABTD_VERIF_ATOMIC(ptr, ABTD_VERIF_OP_STORE);
 #ifdef ABT_CONFIG_HAVE_ATOMIC_BUILTIN
     __atomic_store_n(&ptr->val, val, __ATOMIC_RELAXED);
 #else
@@ -1035,6 +1118,7 @@ static inline void ABTD_atomic_relaxed_store_uint32(ABTD_atomic_uint32 *ptr,
 static inline void ABTD_atomic_relaxed_store_int64(ABTD_atomic_int64 *ptr,
                                                    int64_t val)
 {
+    ABTD_VERIF_ATOMIC(ptr, ABTD_VERIF_OP_STORE);
 #ifdef ABT_CONFIG_HAVE_ATOMIC_BUILTIN
     __atomic_store_n(&ptr->val, val, __ATOMIC_RELAXED);
 #else
@@ -1045,6 +1129,7 @@ static inline void ABTD_atomic_relaxed_store_int64(ABTD_atomic_int64 *ptr,
 static inline void ABTD_atomic_relaxed_store_uint64(ABTD_atomic_uint64 *ptr,
                                                     uint64_t val)
 {
+    ABTD_VERIF_ATOMIC(ptr, ABTD_VERIF_OP_STORE);
 #ifdef ABT_CONFIG_HAVE_ATOMIC_BUILTIN
     __atomic_store_n(&ptr->val, val, __ATOMIC_RELAXED);
 #else
@@ -1055,6 +1140,7 @@ static inline void ABTD_atomic_relaxed_store_uint64(ABTD_atomic_uint64 *ptr,
 static inline void ABTD_atomic_relaxed_store_ptr(ABTD_atomic_ptr *ptr,
                                                  void *val)
 {
+    ABTD_VERIF_ATOMIC(ptr, ABTD_VERIF_OP_STORE);
 #ifdef ABT_CONFIG_HAVE_ATOMIC_BUILTIN
     __atomic_store_n(&ptr->val, val, __ATOMIC_RELAXED);
 #else
@@ -1064,6 +1150,7 @@ static inline void ABTD_atomic_relaxed_store_ptr(ABTD_atomic_ptr *ptr,
 
 static inline void ABTD_atomic_release_store_int(ABTD_atomic_int *ptr, int val)
 {
+    ABTD_VERIF_ATOMIC(ptr, ABTD_VERIF_OP_STORE);
 #ifdef ABT_CONFIG_HAVE_ATOMIC_BUILTIN
     __atomic_store_n(&ptr->val, val, __ATOMIC_RELEASE);
 #else
@@ -1076,6 +1163,7 @@ static inline void ABTD_atomic_release_store_int(ABTD_atomic_int *ptr, int val)
 static inline void ABTD_atomic_release_store_size(ABTD_atomic_size *ptr,
                                                   size_t val)
 {
+    ABTD_VERIF_ATOMIC(ptr, ABTD_VERIF_OP_STORE);
 #ifdef ABT_CONFIG_HAVE_ATOMIC_BUILTIN
     __atomic_store_n(&ptr->val, val, __ATOMIC_RELEASE);
 #else
@@ -1088,6 +1176,7 @@ static inline void ABTD_atomic_release_store_size(ABTD_atomic_size *ptr,
 static inline void ABTD_atomic_release_store_int32(ABTD_atomic_int32 *ptr,
                                                    int32_t val)
 {
+    ABTD_VERIF_ATOMIC(ptr, ABTD_VERIF_OP_STORE);
 #ifdef ABT_CONFIG_HAVE_ATOMIC_BUILTIN
     __atomic_store_n(&ptr->val, val, __ATOMIC_RELEASE);
 #else
@@ -1100,6 +1189,7 @@ static inline void ABTD_atomic_release_store_int32(ABTD_atomic_int32 *ptr,
 static inline void ABTD_atomic_release_store_uint32(ABTD_atomic_uint32 *ptr,
                                                     uint32_t val)
 {
+    ABTD_VERIF_ATOMIC(ptr, ABTD_VERIF_OP_STORE);
 #ifdef ABT_CONFIG_HAVE_ATOMIC_BUILTIN
     __atomic_store_n(&ptr->val, val, __ATOMIC_RELEASE);
 #else
@@ -1112,6 +1202,7 @@ static inline void ABTD_atomic_release_store_uint32(ABTD_atomic_uint32 *ptr,
 static inline void ABTD_atomic_release_store_int64(ABTD_atomic_int64 *ptr,
                                                    int64_t val)
 {
+    ABTD_VERIF_ATOMIC(ptr, ABTD_VERIF_OP_STORE);
 #ifdef ABT_CONFIG_HAVE_ATOMIC_BUILTIN
     __atomic_store_n(&ptr->val, val, __ATOMIC_RELEASE);
 #else
@@ -1124,6 +1215,7 @@ static inline void ABTD_atomic_release_store_int64(ABTD_atomic_int64 *ptr,
 static inline void ABTD_atomic_release_store_uint64(ABTD_atomic_uint64 *ptr,
                                                     uint64_t val)
 {
+    ABTD_VERIF_ATOMIC(ptr, ABTD_VERIF_OP_STORE);
 #ifdef ABT_CONFIG_HAVE_ATOMIC_BUILTIN
     __atomic_store_n(&ptr->val, val, __ATOMIC_RELEASE);
 #else
@@ -1136,6 +1228,7 @@ static inline void ABTD_atomic_release_store_uint64(ABTD_atomic_uint64 *ptr,
 static inline void ABTD_atomic_release_store_ptr(ABTD_atomic_ptr *ptr,
                                                  void *val)
 {
+    ABTD_VERIF_ATOMIC(ptr, ABTD_VERIF_OP_STORE);
 #ifdef ABT_CONFIG_HAVE_ATOMIC_BUILTIN
     __atomic_store_n(&ptr->val, val, __ATOMIC_RELEASE);
 #else
@@ -1147,6 +1240,7 @@ static inline void ABTD_atomic_release_store_ptr(ABTD_atomic_ptr *ptr,
 
 static inline int ABTD_atomic_exchange_int(ABTD_atomic_int *ptr, int v)
 {
+    ABTD_VERIF_ATOMIC(ptr, ABTD_VERIF_OP_RMW);
 #ifdef ABT_CONFIG_HAVE_ATOMIC_BUILTIN
     return __atomic_exchange_n(&ptr->val, v, __ATOMIC_ACQ_REL);
 #else
@@ -1160,6 +1254,7 @@ static inline int ABTD_atomic_exchange_int(ABTD_atomic_int *ptr, int v)
 
 static inline size_t ABTD_atomic_exchange_size(ABTD_atomic_size *ptr, size_t v)
 {
+    ABTD_VERIF_ATOMIC(ptr, ABTD_VERIF_OP_RMW);
 #ifdef ABT_CONFIG_HAVE_ATOMIC_BUILTIN
     return __atomic_exchange_n(&ptr->val, v, __ATOMIC_ACQ_REL);
 #else
@@ -1174,6 +1269,7 @@ static inline size_t ABTD_atomic_exchange_size(ABTD_atomic_size *ptr, size_t v)
 static inline int32_t ABTD_atomic_exchange_int32(ABTD_atomic_int32 *ptr,
                                                  int32_t v)
 {
+    ABTD_VERIF_ATOMIC(ptr, ABTD_VERIF_OP_RMW);
 #ifdef ABT_CONFIG_HAVE_ATOMIC_BUILTIN
     return __atomic_exchange_n(&ptr->val, v, __ATOMIC_ACQ_REL);
 #else
@@ -1188,6 +1284,7 @@ static inline int32_t ABTD_atomic_exchange_int32(ABTD_atomic_int32 *ptr,
 static inline uint32_t ABTD_atomic_exchange_uint32(ABTD_atomic_uint32 *ptr,
                                                    uint32_t v)
 {
+    ABTD_VERIF_ATOMIC(ptr, ABTD_VERIF_OP_RMW);
 #ifdef ABT_CONFIG_HAVE_ATOMIC_BUILTIN
     return __atomic_exchange_n(&ptr->val, v, __ATOMIC_ACQ_REL);
 #else
@@ -1202,6 +1299,7 @@ static inline uint32_t ABTD_atomic_exchange_uint32(ABTD_atomic_uint32 *ptr,
 static inline int64_t ABTD_atomic_exchange_int64(ABTD_atomic_int64 *ptr,
                                                  int64_t v)
 {
+    ABTD_VERIF_ATOMIC(ptr, ABTD_VERIF_OP_RMW);
 #ifdef ABT_CONFIG_HAVE_ATOMIC_BUILTIN
     return __atomic_exchange_n(&ptr->val, v, __ATOMIC_ACQ_REL);
 #else
@@ -1216,6 +1314,7 @@ static inline int64_t ABTD_atomic_exchange_int64(ABTD_atomic_int64 *ptr,
 static inline uint64_t ABTD_atomic_exchange_uint64(ABTD_atomic_uint64 *ptr,
                                                    uint64_t v)
 {
+    ABTD_VERIF_ATOMIC(ptr, ABTD_VERIF_OP_RMW);
 #ifdef ABT_CONFIG_HAVE_ATOMIC_BUILTIN
     return __atomic_exchange_n(&ptr->val, v, __ATOMIC_ACQ_REL);
 #else
@@ -1229,6 +1328,7 @@ static inline uint64_t ABTD_atomic_exchange_uint64(ABTD_atomic_uint64 *ptr,
 
 static inline void *ABTD_atomic_exchange_ptr(ABTD_atomic_ptr *ptr, void *v)
 {
+    ABTD_VERIF_ATOMIC(ptr, ABTD_VERIF_OP_RMW);
 #ifdef ABT_CONFIG_HAVE_ATOMIC_BUILTIN
     return __atomic_exchange_n(&ptr->val, v, __ATOMIC_ACQ_REL);
 #else
@@ -1293,6 +1393,7 @@ ABTD_atomic_bool_cas_weak_tagged_ptr(ABTD_atomic_tagged_ptr *tagged_ptr,
                                      void *old_ptr, size_t old_tag,
                                      void *new_ptr, size_t new_tag)
 {
+    ABTD_VERIF_ATOMIC(tagged_ptr, ABTD_VERIF_OP_CAS);
 #if SIZEOF_VOID_P == 4
 
     ABTI_STATIC_ASSERT(sizeof(ABTD_atomic_tagged_ptr) == 8);
@@ -1345,6 +1446,7 @@ ABTD_atomic_bool_cas_weak_tagged_ptr(ABTD_atomic_tagged_ptr *tagged_ptr,
 static inline void ABTD_atomic_relaxed_load_non_atomic_tagged_ptr(
     const ABTD_atomic_tagged_ptr *tagged_ptr, void **p_ptr, size_t *p_tag)
 {
+    ABTD_VERIF_ATOMIC(tagged_ptr, ABTD_VERIF_OP_LOAD);
 #ifdef ABT_CONFIG_HAVE_ATOMIC_BUILTIN
 #ifndef __SUNPRO_C
     *p_ptr = __atomic_load_n(&tagged_ptr->ptr, __ATOMIC_RELAXED);
@@ -1362,6 +1464,7 @@ static inline void ABTD_atomic_relaxed_load_non_atomic_tagged_ptr(
 static inline void ABTD_atomic_relaxed_store_non_atomic_tagged_ptr(
     ABTD_atomic_tagged_ptr *tagged_ptr, void *ptr, size_t tag)
 {
+    ABTD_VERIF_ATOMIC(tagged_ptr, ABTD_VERIF_OP_STORE);
 #ifdef ABT_CONFIG_HAVE_ATOMIC_BUILTIN
     __atomic_store_n(&tagged_ptr->ptr, ptr, __ATOMIC_RELAXED);
     __atomic_store_n(&tagged_ptr->tag, tag, __ATOMIC_RELAXED);
@@ -1374,6 +1477,7 @@ static inline void ABTD_atomic_relaxed_store_non_atomic_tagged_ptr(
 static inline void ABTD_atomic_acquire_load_non_atomic_tagged_ptr(
     const ABTD_atomic_tagged_ptr *tagged_ptr, void **p_ptr, size_t *p_tag)
 {
+    ABTD_VERIF_ATOMIC(tagged_ptr, ABTD_VERIF_OP_LOAD);
 #ifdef ABT_CONFIG_HAVE_ATOMIC_BUILTIN
 #ifndef __SUNPRO_C
     *p_ptr = __atomic_load_n(&tagged_ptr->ptr, __ATOMIC_ACQUIRE);
@@ -1393,6 +1497,7 @@ static inline void ABTD_atomic_acquire_load_non_atomic_tagged_ptr(
 static inline void ABTD_atomic_release_store_non_atomic_tagged_ptr(
     ABTD_atomic_tagged_ptr *tagged_ptr, void *ptr, size_t tag)
 {
+    ABTD_VERIF_ATOMIC(tagged_ptr, ABTD_VERIF_OP_STORE);
 #ifdef ABT_CONFIG_HAVE_ATOMIC_BUILTIN
     __atomic_store_n(&tagged_ptr->ptr, ptr, __ATOMIC_RELEASE);
     __atomic_store_n(&tagged_ptr->tag, tag, __ATOMIC_RELEASE);
